@@ -31,6 +31,11 @@ PIPES = {
         "good": "import random\n\nrandom.random()\nvalues = set([3])\nrandom.randint(0, 9)\nother = set([4, 5])\n",
         "queue": ["sonar:python/secure-random", "pixee:python/use-set-literal"],
     },
+    # a Sonar-driven transformer that records its changes node by node (two findings per file)
+    "sast2": {
+        "good": "assert (1,2,3)\nx = set([1])\nassert (4,5,6)\ny = 2\n",
+        "queue": ["sonar:python/fix-assert-tuple", "pixee:python/use-set-literal"],
+    },
 }
 FILES = ["a.py", "pkg/b.py", "pkg/sub/c.py"]
 
@@ -51,8 +56,14 @@ def bad_content(kind: str, good: str):
     raise ValueError(kind)
 
 
-def sonar_doc():
+def sonar_doc(pipe="sast"):
     out = []
+    if pipe == "sast2":
+        for i, p in enumerate(FILES):
+            for j, line in enumerate((1, 3)):
+                out.append({"rule": "python:S5905", "status": "OPEN", "component": f"proj:{p}", "key": f"t{i}{j}", "message": "m",
+                            "textRange": {"startLine": line, "endLine": line, "startOffset": 8, "endOffset": 15}})
+        return {"issues": out}
     for i, p in enumerate(FILES):
         out.append({"rule": "python:S2245", "status": "OPEN", "component": f"proj:{p}", "key": f"k{i}a", "message": "m",
                     "textRange": {"startLine": 3, "endLine": 3, "startOffset": 0, "endOffset": 15}})
@@ -78,8 +89,8 @@ def build(pipe: str, faults: list[dict], sid: str) -> dict:
             inject["raise_at_node"] = {"c": c, "f": f, "n": {"raiseAtNodeEarly": 2, "raiseAtNodeMid": 12, "raiseAtNodeLate": 22}[x["kind"]]}
     argv = ["{dir}", "--output", "{out}", "--codemod-include", ",".join(spec["queue"])]
     res = {}
-    if pipe == "sast":
-        res["sonar.json"] = sonar_doc()
+    if pipe in ("sast", "sast2"):
+        res["sonar.json"] = sonar_doc(pipe)
         argv += ["--sonar-issues-json", "{res}/sonar.json"]
     return {"id": sid, "files": files, "resfiles": res, "steps": [{"argv": argv, "inject": inject, "keep_after": True}]}
 
